@@ -93,6 +93,11 @@ Print Assumptions Filter_hash_zero.
 (* ====================================================================== *)
 (* shared facts for matches / add                                          *)
 (* ====================================================================== *)
+(* The condition under which the loops of matches/add do not panic: a non-empty array must give a
+   non-zero divisor uint32(len)<<3.  It follows from len_ok_msg (len < 2^29, itself implied by the
+   wire limit); it fails exactly when len is a non-zero multiple of 2^29. *)
+Definition div_ok (m : Bloom.msg) : Prop := length (m_bytes m) <> O -> nbits m <> 0.
+
 (* uint32(len) << 3 does not wrap under len_ok_msg *)
 Lemma nbits_val m : len_ok_msg m -> nbits m = 8 * N.of_nat (length (m_bytes m)).
 Proof.
@@ -102,21 +107,34 @@ Proof.
   rewrite (N.mod_small (N.of_nat _)) by lia. rewrite N.mod_small by lia. lia.
 Qed.
 
+Lemma len_ok_div_ok m : len_ok_msg m -> div_ok m.
+Proof. intros H Hne. rewrite nbits_val by exact H. lia. Qed.
+
+(* with or without wrap, nbits <= 8 * len *)
+Lemma nbits_le m : nbits m <= 8 * N.of_nat (length (m_bytes m)).
+Proof.
+  unfold nbits, hlit. eval_term (lit lits_Filter_hash 1).
+  rewrite !w32_is_mod, N.shiftl_mul_pow2. change (2 ^ 3) with 8.
+  etransitivity; [apply N.mod_le; discriminate|].
+  pose proof (N.mod_le (N.of_nat (length (m_bytes m))) (2 ^ 32)). lia.
+Qed.
+
 (* bit_index depends on the message only through the array length and the tweak *)
+Lemma nbits_len m1 m2 : length (m_bytes m1) = length (m_bytes m2) -> nbits m1 = nbits m2.
+Proof. unfold nbits. now intros ->. Qed.
+
 Lemma bit_index_len m1 m2 i data :
   length (m_bytes m1) = length (m_bytes m2) -> m_tweak m1 = m_tweak m2 ->
   bit_index m1 i data = bit_index m2 i data.
 Proof. unfold bit_index, nbits. intros -> ->. reflexivity. Qed.
 
+(* the byte index idx>>3 is inside the array: idx < nbits <= 8*len *)
 Lemma bit_index_lt m i data :
-  len_ok_msg m -> length (m_bytes m) <> O ->
-  N.shiftr (bit_index m i data) 3 < N.of_nat (length (m_bytes m)).
+  nbits m <> 0 -> N.shiftr (bit_index m i data) 3 < N.of_nat (length (m_bytes m)).
 Proof.
-  intros Hok Hne. rewrite N.shiftr_div_pow2. change (2 ^ 3) with 8.
-  assert (Hlt : bit_index m i data < nbits m).
-  { unfold bit_index. apply N.mod_lt. rewrite nbits_val by exact Hok. lia. }
-  rewrite nbits_val in Hlt by exact Hok.
-  apply N.div_lt_upper_bound; lia.
+  intros Hnz. rewrite N.shiftr_div_pow2. change (2 ^ 3) with 8.
+  assert (Hlt : bit_index m i data < nbits m) by (unfold bit_index; apply N.mod_lt; exact Hnz).
+  pose proof (nbits_le m). apply N.div_lt_upper_bound; lia.
 Qed.
 
 Lemma nth_res_nth (l : list N) k : (k < length l)%nat -> nth_res l k = Ok (nth k l 0).
@@ -163,16 +181,16 @@ Print Assumptions Filter_matches_nil_tie.
 
 (* one iteration of the loop of matches *)
 Lemma matches_body m i data :
-  Bytes data -> N.of_nat (length data) < 2 ^ 32 -> len_ok_msg m -> length (m_bytes m) <> O ->
+  Bytes data -> N.of_nat (length data) < 2 ^ 32 -> nbits m <> 0 ->
   (do idx <- Kernels2.Filter_hash (m_tweak m) (m_bytes m) i data ;;
    do b <- Go.idx (m_bytes m) (Z.of_N (N.shiftr idx 3)) ;;
    if N.land b ((N.shiftl 1 (N.land idx 7)) mod 2 ^ 8) =? 0
    then Ok (Go.Ret (S := unit) false) else Ok (Go.Next tt))
   = Ok (if test_bit (m_bytes m) (bit_index m i data) then Go.Next tt else Go.Ret false).
 Proof.
-  intros Hd Hl Hok Hne.
-  rewrite Filter_hash_tie; [| exact Hd | exact Hl | rewrite nbits_val by exact Hok; lia].
-  cbn [rbind]. pose proof (bit_index_lt m i data Hok Hne) as Hlt.
+  intros Hd Hl Hnz.
+  rewrite Filter_hash_tie by assumption.
+  cbn [rbind]. pose proof (bit_index_lt m i data Hnz) as Hlt.
   rewrite idx_N, nth_res_nth by lia. cbn [rbind].
   unfold test_bit, mlit_m.
   eval_term (lit lits_Filter_matches 2). eval_term (lit lits_Filter_matches 3).
@@ -181,13 +199,12 @@ Proof.
   destruct (N.land _ _ =? 0); reflexivity.
 Qed.
 
-(* Hypotheses: those of Filter_hash_tie about data; [m_nhash m < 2^32] because the model wraps the
-   loop bound (it is a uint32 in Go) and the code's parameter is an unconstrained N;
-   [len_ok_msg m] (len < 2^29) so that uint32(len)<<3 = 8*len: then the divisor is non-zero for a
-   non-empty array and idx>>3 < len, i.e. the code's checked read does not panic and agrees with
-   the model's unchecked [nth]. *)
-Theorem Filter_matches_tie m data :
-  Bytes data -> N.of_nat (length data) < 2 ^ 32 -> m_nhash m < 2 ^ 32 -> len_ok_msg m ->
+(* General form.  Hypotheses: those of Filter_hash_tie about data; [m_nhash m < 2^32] because the
+   model wraps the loop bound (a uint32 in Go) and the code's argument is an unconstrained N;
+   [div_ok m] so that the modulo in hash does not panic.  The checked read Filter[idx>>3] then never
+   panics (idx < nbits <= 8*len) and agrees with the model's unchecked [nth]. *)
+Theorem Filter_matches_tie_gen m data :
+  Bytes data -> N.of_nat (length data) < 2 ^ 32 -> m_nhash m < 2 ^ 32 -> div_ok m ->
   Kernels2.Filter_matches false (m_bytes m) (m_nhash m) (m_tweak m) data
   = Ok (Bloom.matches (Some m) data).
 Proof.
@@ -199,9 +216,31 @@ Proof.
     rewrite (foldC_forallb (fun i => test_bit (m_bytes m) (bit_index m i data))).
     + cbn [rbind]. rewrite hash_nums_tie by exact Hn. unfold indices. rewrite forallb_map'.
       destruct (forallb _ _); reflexivity.
-    + intros i _. apply matches_body; [exact Hd | exact Hl | exact Hok | lia].
+    + intros i _. apply matches_body; [exact Hd | exact Hl | apply Hok; lia].
 Qed.
+Print Assumptions Filter_matches_tie_gen.
+
+(* under the model's own domain condition (len < 2^29) *)
+Theorem Filter_matches_tie m data :
+  Bytes data -> N.of_nat (length data) < 2 ^ 32 -> m_nhash m < 2 ^ 32 -> len_ok_msg m ->
+  Kernels2.Filter_matches false (m_bytes m) (m_nhash m) (m_tweak m) data
+  = Ok (Bloom.matches (Some m) data).
+Proof. intros Hd Hl Hn Hok. apply Filter_matches_tie_gen; auto using len_ok_div_ok. Qed.
 Print Assumptions Filter_matches_tie.
+
+(* Outside div_ok (len a non-zero multiple of 2^29, excluded by len_ok_msg and by the wire limit) the
+   code panics with a division by zero as soon as there is one hash function, while the model
+   returns a boolean: the hypothesis cannot be dropped. *)
+Theorem Filter_matches_wrap_panics m data :
+  length (m_bytes m) <> O -> nbits m = 0 -> 0 < m_nhash m ->
+  Kernels2.Filter_matches false (m_bytes m) (m_nhash m) (m_tweak m) data = Panic 3.
+Proof.
+  intros Hne Hz Hn. unfold Kernels2.Filter_matches.
+  destruct (Z.eqb_spec (Z.of_nat (length (m_bytes m))) 0) as [E|_]; [lia|].
+  destruct (N.to_nat (m_nhash m)) as [|k] eqn:Ek; [lia|].
+  cbn [Go.nseq Go.foldC]. rewrite Filter_hash_zero by exact Hz. reflexivity.
+Qed.
+Print Assumptions Filter_matches_wrap_panics.
 
 (* ====================================================================== *)
 (* 3. Filter.add                                                           *)
@@ -227,7 +266,7 @@ Definition filter_bytes (f : filter) : list N :=
 
 (* one iteration of the loop of add, on any array s of the original length *)
 Lemma add_body m s i data :
-  Bytes data -> N.of_nat (length data) < 2 ^ 32 -> len_ok_msg m -> length (m_bytes m) <> O ->
+  Bytes data -> N.of_nat (length data) < 2 ^ 32 -> nbits m <> 0 ->
   length s = length (m_bytes m) ->
   (do idx <- Kernels2.Filter_hash (m_tweak m) s i data ;;
    do b <- Go.idx s (Z.of_N (N.shiftr idx 3)) ;;
@@ -235,13 +274,12 @@ Lemma add_body m s i data :
    Ok s')
   = Ok (set_bit s (bit_index m i data)).
 Proof.
-  intros Hd Hl Hok Hne Hs.
+  intros Hd Hl Hnz Hs.
   set (m' := MkMsg s (m_nhash m) (m_tweak m) (Bloom.m_flags m)).
-  assert (Hok' : len_ok_msg m') by (unfold len_ok_msg in *; cbn [m' m_bytes]; now rewrite Hs).
-  assert (Hne' : length (m_bytes m') <> O) by (cbn [m' m_bytes]; now rewrite Hs).
+  assert (Hnz' : nbits m' <> 0) by (rewrite (nbits_len m' m) by exact Hs; exact Hnz).
   change s with (m_bytes m') at 1. change (m_tweak m) with (m_tweak m') at 1.
-  rewrite Filter_hash_tie; [| exact Hd | exact Hl | rewrite nbits_val by exact Hok'; lia].
-  cbn [rbind]. pose proof (bit_index_lt m' i data Hok' Hne') as Hlt. cbn [m' m_bytes] in Hlt.
+  rewrite Filter_hash_tie by assumption.
+  cbn [rbind]. pose proof (bit_index_lt m' i data Hnz') as Hlt. cbn [m' m_bytes] in Hlt.
   rewrite (bit_index_len m' m) in * by (cbn [m' m_bytes m_tweak]; auto).
   rewrite idx_N, nth_res_nth by lia. cbn [rbind].
   rewrite <- N_nat_Z, upd_nat by lia. cbn [rbind].
@@ -257,11 +295,11 @@ Theorem Filter_add_nil_tie bytes nh tw data :
 Proof. split; reflexivity. Qed.
 Print Assumptions Filter_add_nil_tie.
 
-(* Same hypotheses as Filter_matches_tie, for the same reasons; the array length is invariant under
-   the loop, so every call of hash sees the same divisor.  The second conjunct says that the model
-   changes nothing but the array. *)
-Theorem Filter_add_tie m data :
-  Bytes data -> N.of_nat (length data) < 2 ^ 32 -> m_nhash m < 2 ^ 32 -> len_ok_msg m ->
+(* Same hypotheses as Filter_matches_tie_gen, for the same reasons; the array length is invariant
+   under the loop, so every call of hash sees the same divisor.  The second conjunct says that the
+   model changes nothing but the array. *)
+Theorem Filter_add_tie_gen m data :
+  Bytes data -> N.of_nat (length data) < 2 ^ 32 -> m_nhash m < 2 ^ 32 -> div_ok m ->
   Kernels2.Filter_add false (m_bytes m) (m_nhash m) (m_tweak m) data
   = Ok (filter_bytes (Bloom.add (Some m) data)) /\
   Bloom.add (Some m) data
@@ -283,11 +321,39 @@ Proof.
                    Ok s')
                 (fun s i => set_bit s (bit_index m i data))
                 (Go.nseq 0 (N.to_nat (m_nhash m))) (m_bytes m)) as [Hfold _].
-    + intros s i Hs _. apply add_body; [exact Hd | exact Hl | exact Hok | lia | exact Hs].
+    + intros s i Hs _. apply add_body; [exact Hd | exact Hl | apply Hok; lia | exact Hs].
     + intros s i Hs _. now rewrite set_bit_length.
     + reflexivity.
     + apply Forall_forall. intros; exact I.
     + rewrite Hfold. cbn [rbind]. rewrite hash_nums_tie by exact Hn.
       unfold indices. now rewrite fold_left_map.
 Qed.
+Print Assumptions Filter_add_tie_gen.
+
+Theorem Filter_add_tie m data :
+  Bytes data -> N.of_nat (length data) < 2 ^ 32 -> m_nhash m < 2 ^ 32 -> len_ok_msg m ->
+  Kernels2.Filter_add false (m_bytes m) (m_nhash m) (m_tweak m) data
+  = Ok (filter_bytes (Bloom.add (Some m) data)) /\
+  Bloom.add (Some m) data
+  = Some (MkMsg (filter_bytes (Bloom.add (Some m) data)) (m_nhash m) (m_tweak m) (Bloom.m_flags m)).
+Proof. intros Hd Hl Hn Hok. apply Filter_add_tie_gen; auto using len_ok_div_ok. Qed.
 Print Assumptions Filter_add_tie.
+
+Theorem Filter_add_wrap_panics m data :
+  length (m_bytes m) <> O -> nbits m = 0 -> 0 < m_nhash m ->
+  Kernels2.Filter_add false (m_bytes m) (m_nhash m) (m_tweak m) data = Panic 3.
+Proof.
+  intros Hne Hz Hn. unfold Kernels2.Filter_add. cbn [orb].
+  destruct (Z.eqb_spec (Z.of_nat (length (m_bytes m))) 0) as [E|_]; [lia|].
+  destruct (N.to_nat (m_nhash m)) as [|k] eqn:Ek; [lia|].
+  cbn [Go.nseq Go.foldM]. rewrite Filter_hash_zero by exact Hz. reflexivity.
+Qed.
+Print Assumptions Filter_add_wrap_panics.
+
+(* the hypotheses are satisfiable (a 2-byte filter, 3 hash functions), and the tie computes *)
+Example tie_example :
+  let m := MkMsg [0; 0] 3 5 0 in
+  Kernels2.Filter_add false (m_bytes m) (m_nhash m) (m_tweak m) [1; 2; 3]
+  = Ok (filter_bytes (Bloom.add (Some m) [1; 2; 3])) /\
+  len_ok_msg m /\ m_nhash m < 2 ^ 32.
+Proof. vm_compute. repeat split. Qed.
